@@ -4,11 +4,13 @@ package h_gun
 
 import (
 	"context"
+	"io"
 	"net/http"
 
 	"github.com/yandex/pandora/core"
 	"github.com/yandex/pandora/core/aggregator/netsample"
 	"go.uber.org/zap"
+	"go.uber.org/zap/zapcore"
 )
 
 // scriptClient is a phttp.Client whose answers are scripted.
@@ -32,4 +34,12 @@ func (a *recAgg) Report(s *netsample.Sample)                            { a.samp
 
 func gunDeps(id int) core.GunDeps {
 	return core.GunDeps{Ctx: context.Background(), Log: zap.NewNop(), PoolID: "pool", InstanceID: id}
+}
+
+// answLogger: the answer log as lib/answlog builds it, writing to nowhere.
+func answLogger(on bool) *zap.Logger {
+	if !on {
+		return zap.NewNop()
+	}
+	return zap.New(zapcore.NewCore(zapcore.NewConsoleEncoder(zap.NewDevelopmentEncoderConfig()), zapcore.AddSync(io.Discard), zapcore.DebugLevel))
 }
